@@ -98,6 +98,7 @@ def h_graph(t: GRAPH_SEL) -> bool:
 
 KOPS = param("C16_KOPS", quick=5, thorough=6)
 NEXC = param("C16_NEXC", quick=1, thorough=2)
+GAPS = param("C16_GAPS", quick=3, thorough=3)   # 3: all inline-cache patterns; 1: only "every other instruction"
 # per op: kind, target index, (unused, 0); then the inline-cache pattern (0 none, 1 every
 # instruction, 2 every other one); then per exception entry: present, start, end,
 # end_in_gap, target, lasti
@@ -121,7 +122,7 @@ def code_ok(t):
   # compiler guarantee: control cannot fall off the end of the code
   conds.append(any([t[OW * (KOPS - 1)] == JUMP, t[OW * (KOPS - 1)] == RET,
                     t[OW * (KOPS - 1)] == RAISE]))
-  conds.append(inrange(t[GAP_AT], 0, 3))
+  conds.append(inrange(t[GAP_AT], 0, 3) if GAPS == 3 else t[GAP_AT] == 2)
   base = OW * KOPS
   for e in range(NEXC):
     pres, st, en, eg, tg, lasti = t[base + EW * e:base + EW * e + EW]
